@@ -159,7 +159,9 @@ func c16Targets() []c16Target {
 			types = append(types, l.Type)
 			if l.Type.Kind() != reflect.Slice && l.Type.Kind() != reflect.Map {
 				types = append(types, reflect.SliceOf(l.Type))
-				types = append(types, reflect.MapOf(l.Type, reflect.TypeOf(gen.Level(0))))
+				if l.Type.Comparable() {
+					types = append(types, reflect.MapOf(l.Type, reflect.TypeOf(gen.Level(0))))
+				}
 			}
 		}
 	}
@@ -451,11 +453,19 @@ func c16Types(w *fw.Worker, i int, r *fw.Rand, cw *c16Watch) {
 	leaves := spec.LeafRefs()
 	seen := map[string]bool{}
 	for _, lr := range leaves {
-		n := envName("", lr)
-		if seen[n] {
-			return
+		// the statement's precondition: distinct flattened leaf names (by Go names and by name/tag words)
+		flat := ""
+		for _, f := range lr.Path {
+			if !f.IsEmbedded() {
+				flat += f.Name
+			}
 		}
-		seen[n] = true
+		for _, n := range []string{"w:" + envName("", lr), "n:" + flat, "l:" + strings.ToLower(flat)} {
+			if seen[n] {
+				return
+			}
+			seen[n] = true
+		}
 	}
 	c := &gen.Counter{}
 	zero := reflect.New(spec.Type())
